@@ -11,7 +11,7 @@
 From Coq Require Import String.
 From FA Require Import model.Base model.Json model.Parse model.SchemaSpec model.Canon
      model.Inline model.Value model.Schema model.Codec model.Bridge
-     proofs.JsonProofs proofs.ParseProofs proofs.CanonProofs proofs.InlineProofs proofs.CodecProofs proofs.BridgeProofs proofs.BridgeCanonProofs proofs.FixedPointProofs.
+     proofs.JsonProofs proofs.ParseProofs proofs.CanonProofs proofs.InlineProofs proofs.CodecProofs proofs.BridgeProofs proofs.BridgeCanonProofs proofs.FixedPointProofs proofs.TypedEraseProofs proofs.SameEncodingProofs.
 Open Scope string_scope.
 
 (** canon (parse j) = pcf j, for every raw schema the parser accepts, any fuel, any
@@ -173,10 +173,98 @@ Theorem C13_same_encoding_schema : forall j f t p t' f2 t2 p2 t2',
 Proof. exact same_erased_schema. Qed.
 Print Assumptions C13_same_encoding_schema.
 
-(** hence bytes that decode under one decode to the same value under the other.  Partial: the
-    equality of the erased TABLES (env_of_table of the two parses) is a hypothesis here - what is
-    missing is the characterisation of every table entry as the parse of its definition; the
-    correspondence evaluates it on every generated schema (same_encoding_check) *)
+(** (iii) typing of values ([typed], the domain of the encoder [wire], which itself takes no schema)
+    and the decoder see the table through [lookup] only and the schema through its erasure only *)
+Theorem C13_typed_erased : forall e1 s1 e2 s2 a,
+  erase_schema s1 = erase_schema s2 ->
+  (forall n, lookup (erase_env e1) n = lookup (erase_env e2) n) ->
+  typed e1 s1 a <-> typed e2 s2 a.
+Proof. exact typed_same_erasure. Qed.
+Print Assumptions C13_typed_erased.
+
+Theorem C13_decoder_erased : forall a f e1 s1 e2 s2,
+  erase_schema s1 = erase_schema s2 ->
+  (forall n, lookup (erase_env e1) n = lookup (erase_env e2) n) ->
+  achk a s2 = true -> (forall n d, lookup e2 n = Some d -> achk a d = true) ->
+  mono (dec f e1 s1) (dec (f * S a) e2 s2).
+Proof. exact dec_same_erasure_lookup. Qed.
+Print Assumptions C13_decoder_erased.
+
+(** (iv) C13_same_encoding, for ALL values: two raw schemas with the same canonical JSON
+    ([pcf_json]: the specification's transformation before printing), parsed from scratch, type
+    exactly the same values; the encoding [wire a] of such a value is the same byte string whatever
+    the schema (it takes none) and decodes back to a under both; and whatever bytes (any block
+    layout) decode under one decode to the same value under the other.
+    The table side: every table entry is the parser's output for its definition
+    (proofs/PoutProofs.v), whose erased codec schema is the codec schema of the definition's
+    canonical JSON; so the erased table is a function of the canonical JSON ([table_of_canon]).
+    Hypotheses: [simple_raw] (all generated schemas); the bridge is defined on the two parses
+    (validated on every run by corr:bridge).  The canonical forms are compared as JSON values,
+    not as printed text (injectivity of the printer on canonical JSON is not proved). *)
+Theorem C13_same_encoding : forall j1 j2 f1 f2 p1 t1 p2 t2 s1 e1 s2 e2,
+  simple_raw j1 = true -> simple_raw j2 = true -> pcf_json j1 = pcf_json j2 ->
+  parse_schema f1 j1 [] = POk (p1, t1) -> parse_schema f2 j2 [] = POk (p2, t2) ->
+  schema_of_json p1 = Some s1 -> env_of_table t1 = Some e1 ->
+  schema_of_json p2 = Some s2 -> env_of_table t2 = Some e2 ->
+  forall a, typed e1 s1 a <-> typed e2 s2 a.
+Proof. exact same_canon_same_typed. Qed.
+Print Assumptions C13_same_encoding.
+
+Theorem C13_same_encoding_wire : forall j1 j2 f1 f2 p1 t1 p2 t2 s1 e1 s2 e2,
+  simple_raw j1 = true -> simple_raw j2 = true -> pcf_json j1 = pcf_json j2 ->
+  parse_schema f1 j1 [] = POk (p1, t1) -> parse_schema f2 j2 [] = POk (p2, t2) ->
+  schema_of_json p1 = Some s1 -> env_of_table t1 = Some e1 ->
+  schema_of_json p2 = Some s2 -> env_of_table t2 = Some e2 ->
+  forall a, typed e1 s1 a ->
+  exists n, forall f, (n <= f)%nat -> forall r,
+    dec f e1 s1 (wire a ++ r)%list = Ok (a, r) /\ dec f e2 s2 (wire a ++ r)%list = Ok (a, r).
+Proof. exact same_canon_same_wire. Qed.
+Print Assumptions C13_same_encoding_wire.
+
+Theorem C13_same_decoding : forall j1 j2 f1 f2 p1 t1 p2 t2 s1 e1 s2 e2 a,
+  simple_raw j1 = true -> simple_raw j2 = true -> pcf_json j1 = pcf_json j2 ->
+  parse_schema f1 j1 [] = POk (p1, t1) -> parse_schema f2 j2 [] = POk (p2, t2) ->
+  schema_of_json p1 = Some s1 -> env_of_table t1 = Some e1 ->
+  schema_of_json p2 = Some s2 -> env_of_table t2 = Some e2 ->
+  achk a s2 = true -> (forall n d, lookup e2 n = Some d -> achk a d = true) ->
+  forall f, mono (dec f e1 s1) (dec (f * S a) e2 s2).
+Proof. exact same_canon_same_decoding. Qed.
+Print Assumptions C13_same_decoding.
+
+(* the erased table as a function of the canonical JSON *)
+Theorem C13_table_of_canon : forall f j p t e,
+  simple_raw j = true -> parse_schema f j [] = POk (p, t) -> env_of_table t = Some e ->
+  forall nm, lookup (erase_env e) nm = alookup (cdefs_m (pcf_json j) PSchema) nm.
+Proof. exact table_of_canon. Qed.
+Print Assumptions C13_table_of_canon.
+
+(* non-vacuity: the hypotheses computed on two different schemas with the same canonical JSON
+   (namespace written three ways, doc / aliases / defaults / order / logicalType differ, a type used
+   twice), whose un-erased codec schemas and tables differ ... *)
+Definition ex_enc_1 : json :=
+  JObj [("type", JStr "record"); ("name", JStr "R"); ("namespace", JStr "a.b"); ("doc", JStr "d");
+        ("fields", JArr [JObj [("name", JStr "f"); ("type", JObj [("type", JStr "fixed"); ("name", JStr "F"); ("size", JInt 2)])];
+                         JObj [("name", JStr "g"); ("type", JArr [JStr "null"; JStr "F"]); ("default", JNull)];
+                         JObj [("name", JStr "h"); ("type", JObj [("type", JStr "long"); ("logicalType", JStr "timestamp-millis")])];
+                         JObj [("name", JStr "e"); ("type", JObj [("type", JStr "enum"); ("name", JStr "x.E"); ("symbols", JArr [JStr "A"; JStr "B"]); ("default", JStr "A")])]])].
+Definition ex_enc_2 : json :=
+  JObj [("name", JStr "a.b.R"); ("aliases", JArr [JStr "Old"]); ("type", JStr "record");
+        ("fields", JArr [JObj [("type", JObj [("size", JInt 2); ("type", JStr "fixed"); ("name", JStr "a.b.F"); ("aliases", JArr [JStr "G"])]); ("name", JStr "f")];
+                         JObj [("name", JStr "g"); ("type", JArr [JStr "null"; JStr "a.b.F"])];
+                         JObj [("name", JStr "h"); ("type", JStr "long")];
+                         JObj [("name", JStr "e"); ("type", JObj [("type", JStr "enum"); ("namespace", JStr "x"); ("name", JStr "E"); ("symbols", JArr [JStr "A"; JStr "B"])])]])].
+Example C13_same_encoding_instance : same_canon_check ex_enc_1 ex_enc_2 = true /\ pcf_json ex_enc_1 = pcf_json ex_enc_2.
+Proof. split; vm_compute; reflexivity. Qed.
+
+(* ... and the theorem itself applied, every term explicit: "int" and {"type": "int"} *)
+Example C13_same_encoding_applied : forall a, typed [] SInt a <-> typed [] (SAnnot [] SInt) a.
+Proof.
+  apply (C13_same_encoding (JStr "int") (JObj [("type", JStr "int")]) 3 3 (JStr "int") [] (JObj [("type", JStr "int")]) []);
+    vm_compute; reflexivity.
+Qed.
+
+(** the earlier form with the equality of the erased tables as a hypothesis (kept: it does not need
+    [simple_raw] or a parse) *)
 Theorem C13_same_encoding_partial : forall a f e1 s1 e2 s2,
   erase_schema s1 = erase_schema s2 -> erase_env e1 = erase_env e2 ->
   achk a s2 = true -> (forall n d, lookup e2 n = Some d -> achk a d = true) ->
